@@ -10,7 +10,7 @@
     answered "new" and recorded k at clock [now]; [EDup] = answered "duplicate";
     [ESweep c T clk ks] = cleaner c, at clock clk, ran cleanOut(T) and deleted exactly ks. *)
 From WM Require Import Message.Model Handler.RouterHandle.
-From WM Require Import Base.Prelude Dedup.Model Dedup.MonProofs Dedup.Proofs Dedup.ApiProofs Dedup.Timed Dedup.TimedProofs Dedup.Clients Dedup.ClientsProofs Dedup.TimelockProofs Dedup.EndToEndProofs Dedup.BatchProofs Dedup.Glue Dedup.AcceptorProofs Corr.C14.
+From WM Require Import Base.Prelude Dedup.Model Dedup.MonProofs Dedup.Proofs Dedup.ApiProofs Dedup.Timed Dedup.TimedProofs Dedup.Clients Dedup.ClientsProofs Dedup.TimelockProofs Dedup.EndToEndProofs Dedup.BatchProofs Dedup.Glue Dedup.AcceptorProofs Dedup.HashVariants Dedup.HashSeparationProofs Corr.C14.
 Local Open Scope Z_scope.
 
 (** The lookup and the insert of different goroutines never interleave: at most one thread is
@@ -591,3 +591,26 @@ Theorem C14_window_validation : forall w,
   (window_ok w = true <-> min_window <= w) /\ (window_ok w = true -> 0 <= w).
 Proof. exact window_ok_spec. Qed.
 Print Assumptions C14_window_validation.
+
+(** ** What key separation needs (round "seeds 5"): the hash function injective AND the key a
+    function of the digest only.  A key of the form H (f payload) with H injective separates
+    exactly what f separates (f = the prefix at the read limit: C14_sha256_distinguishes_within_limit)... *)
+Theorem C14_key_of_digest_only_separates : forall (H f : list N -> list N),
+  (forall a b, H a = H b -> a = b) ->
+  forall p1 p2, (H (f p1) = H (f p2) <-> f p1 = f p2).
+Proof. exact key_of_digest_only_separates. Qed.
+Print Assumptions C14_key_of_digest_only_separates.
+
+(** ...whereas a hasher that returns payloads of at most n bytes (n = the digest size < 64)
+    verbatim shares one key space between verbatim keys and digests: for EVERY hash function,
+    injective or not, a payload longer than n and the payload consisting of the digest of its
+    prefix at the read limit differ within the limit and get the same key.  (The hasher family
+    of the check generates exactly these pairs from the hashers' own outputs.) *)
+Theorem C14_verbatim_keys_break_separation_refuted : forall (H : list N -> list N) (n : Z),
+  (forall x, Z.of_nat (length (H x)) <= n) -> 0 <= n < read_limit_min ->
+  forall limit p1, n < Z.of_nat (length p1) ->
+  let p2 := H (take (eff_limit limit) p1) in
+  firstn (Z.to_nat (eff_limit limit)) p1 <> firstn (Z.to_nat (eff_limit limit)) p2
+  /\ hash_key_verbatim H n limit p1 = hash_key_verbatim H n limit p2.
+Proof. exact verbatim_keys_break_separation. Qed.
+Print Assumptions C14_verbatim_keys_break_separation_refuted.
